@@ -64,7 +64,13 @@ namespace sim
     const std::size_t bytes = n * elem_size;
     unsigned char *raw = static_cast<unsigned char *> (std::malloc (bytes + 2 * REDZONE));
     if (raw == 0)
+    {
+#if SVSIM_EXCEPTIONS
       throw std::bad_alloc ();
+#else
+      std::abort ();
+#endif
+    }
     std::memset (raw, CANARY_BYTE, REDZONE);
     std::memset (raw + REDZONE, FRESH_BYTE, bytes);
     std::memset (raw + REDZONE + bytes, CANARY_BYTE, REDZONE);
